@@ -212,6 +212,144 @@ def family_resolution(rng, fid):
     return c, {'kind': 'equivalence', 'names': names, 'plan': plan, 'fid': fid, 'variants': variants, 'ref_name': 'as-written'}
 
 
+def family_geometry(rng, fid):
+    """a planar slab/fault on a collinear cartesian trench: every section has the same lengths and the same dip (so the plane is one
+    plane) but its own thickness pair and top truncation pair; membership at points placed a few per cent inside / outside the
+    interpolated bounds, with the along-strike fraction taken from the library's own closest-point kernel"""
+    ctx = wg.gen_ctx(rng, False, exotic=False)
+    n = rng.randint(2, 5)
+    f, t, ftype = base_feature(rng, ctx, n, collinear=True)
+    fault = ftype == 'fault'
+    doc0 = {}
+    wg.gen_globals(rng, ctx, doc0, exotic=False, force_surface=False)
+    nseg = rng.randint(1, 2)
+    ang = wg.R(rng.uniform(50, 130) if fault else rng.uniform(25, 75))
+    lengths = [wg.num(rng, 1e5, 3e5) for _ in range(nseg)]
+    th0 = wg.num(rng, 4e4, 1.2e5)
+    f.pop('max depth', None)
+
+    def table():
+        rows = []
+        for s_ in range(nseg):
+            t0, t1 = wg.R(th0 * rng.uniform(0.5, 1.5)), wg.R(th0 * rng.uniform(0.5, 1.5))
+            c0, c1 = (0.0, 0.0) if fault else (wg.R(th0 * rng.uniform(-0.3, 0.3)), wg.R(th0 * rng.uniform(-0.3, 0.3)))
+            rows.append((t0, t1, c0, c1))
+        return rows
+
+    def segments(rows):
+        out = []
+        for L, (t0, t1, c0, c1) in zip(lengths, rows):
+            sg = {'length': L, 'thickness': [t0, t1], 'angle': [ang]}
+            if not fault:
+                sg['top truncation'] = [c0, c1]
+            out.append(sg)
+        return out
+    tables = [table() for _ in range(n)]
+    f['segments'] = segments(tables[0])
+    f['sections'] = [{'coordinate': k, 'segments': segments(tables[k])} for k in range(n)]
+    f['composition models'] = [{'model': 'uniform', 'compositions': [0], 'fractions': [0.75]}]
+    d = dict(doc0)
+    d['features'] = [f]
+    fn = '%s_0.wb' % fid
+    c = core.Case(fid, files={fn: wg.dumps(d)})
+    world(c, 1, core.workfile(PID, fn))
+    flat = []
+    for p in f['coordinates']:
+        flat += [core.hx(p[0]), core.hx(p[1])]
+    c.add('bez_new', 1, 'c', *flat)
+    tr = f['coordinates']
+    ex, ey = tr[-1][0] - tr[0][0], tr[-1][1] - tr[0][1]
+    Ln = math.hypot(ex, ey)
+    nx, ny = -ey / Ln, ex / Ln
+    if (f['dip point'][0] - tr[0][0]) * nx + (f['dip point'][1] - tr[0][1]) * ny < 0:
+        nx, ny = -nx, -ny
+    a = math.radians(ang)
+    d0 = f.get('min depth', 0.0)
+    plan = []
+    for _ in range(90):
+        j = rng.randrange(n - 1)
+        fr = rng.uniform(0.03, 0.97)
+        px, py = tr[j][0] + fr * (tr[j + 1][0] - tr[j][0]), tr[j][1] + fr * (tr[j + 1][1] - tr[j][1])
+        sgi = rng.randrange(nseg)
+        u = rng.uniform(0.05, 0.95)
+        s_al = sum(lengths[:sgi]) + u * lengths[sgi]
+        # rough bounds with the arc fraction, to aim the point; the judgement uses the library's fraction
+        def lerp2(col, frac):
+            A = tables[j][sgi][col] + u * (tables[j][sgi][col + 1] - tables[j][sgi][col])
+            B = tables[j + 1][sgi][col] + u * (tables[j + 1][sgi][col + 1] - tables[j + 1][sgi][col])
+            return A + frac * (B - A)
+        th, tc = lerp2(0, fr), lerp2(2, fr)
+        span = (th - tc) if not fault else th
+        bound = rng.choice(['thickness', 'thickness', 'truncation']) if not fault else 'thickness'
+        eps = rng.choice([-1, 1]) * rng.uniform(0.005, 0.08) * span
+        if fault:
+            nn = rng.choice([-1, 1]) * (0.5 * th + eps)
+        else:
+            nn = (th if bound == 'thickness' else tc) + eps
+        hh = s_al * math.cos(a) - nn * math.sin(a)
+        vv = s_al * math.sin(a) + nn * math.cos(a)
+        if vv < 1.0:
+            continue        # above the feature's min depth: outside whatever the thickness
+        sx, sy, dep = px + nx * hh, py + ny * hh, d0 + vv
+        ib = c.add('bez_close', 1, 'c', core.hx(sx), core.hx(sy))
+        plan.append({'j': j, 'sgi': sgi, 'u': u, 'nn': nn, 'bound': bound, 'point': (sx, sy, dep), 'ib': ib, 'iq': q3(c, 1, ctx, sx, sy, dep, PROPS)})
+    return c, {'kind': 'geometry', 'plan': plan, 'fid': fid, 'tables': tables, 'fault': fault, 'feature': f, 'n': n}
+
+
+def check_geometry(V, c, t):
+    if c.crash:
+        V.crash(c, t['fid'])
+        return
+    if not ok(c.results[0]) or not ok(c.results[1]):
+        return
+    tables, fault = t['tables'], t['fault']
+    for p in t['plan']:
+        rb, rq = c.results[p['ib']], c.results[p['iq']]
+        if not ok(rb) or not ok(rq):
+            continue
+        b = rb[1].split(' ')
+        if b[0] in ('inf', '-inf', 'nan'):
+            continue
+        sec, frac = int(b[3]), core.fh(b[1])
+        if sec != p['j'] or not (0.0 <= frac <= 1.0):
+            continue
+        sgi, u = p['sgi'], p['u']
+
+        def at(section, col):
+            return tables[section][sgi][col] + u * (tables[section][sgi][col + 1] - tables[section][sgi][col])
+        V.count()
+        inside = vals(rq)[3] >= 0
+        # the bounds any convex combination of the two adjacent sections can give at this place along the dip
+        th_lo, th_hi = sorted((at(sec, 0), at(sec + 1, 0)))
+        tc_lo, tc_hi = sorted((at(sec, 2), at(sec + 1, 2)))
+        th_f = at(sec, 0) + frac * (at(sec + 1, 0) - at(sec, 0))
+        tc_f = at(sec, 2) + frac * (at(sec + 1, 2) - at(sec, 2))
+        nn = p['nn']
+        slack = 1e-6 * th_hi
+        detail = {'family': t['fid'], 'point': p['point'], 'section': sec, 'fraction': frac, 'segment': sgi, 'fraction_along_segment': u, 'distance_below_the_plane': nn,
+                  'thickness_of_the_two_sections_here': (at(sec, 0), at(sec + 1, 0)), 'truncation_of_the_two_sections_here': (at(sec, 2), at(sec + 1, 2)),
+                  'interpolated': (th_f, tc_f), 'library_inside': inside, 'feature': t['feature']}
+        if fault:
+            certainly_in = abs(nn) < 0.5 * th_lo - slack
+            certainly_out = abs(nn) > 0.5 * th_hi + slack
+            exp_f = abs(nn) <= 0.5 * th_f
+            margin_f = abs(abs(nn) - 0.5 * th_f)
+        else:
+            certainly_in = tc_hi + slack < nn < th_lo - slack
+            certainly_out = nn < tc_lo - slack or nn > th_hi + slack
+            exp_f = tc_f <= nn <= th_f
+            margin_f = min(abs(nn - tc_f), abs(nn - th_f))
+        if certainly_in and not inside:
+            V.violation('interpolation:geometry-not-a-convex-combination:point-inside-both-sections-bounds-is-outside', detail)
+        elif certainly_out and inside:
+            V.violation('interpolation:geometry-not-a-convex-combination:point-outside-both-sections-bounds-is-inside', detail)
+        elif margin_f > 1e-4 * th_hi and exp_f != inside:
+            # the linear combination at the library's own along-strike fraction
+            V.violation('interpolation:geometry-differs-from-the-linear-combination-at-the-trench-fraction:%s' % p['bound'], detail)
+        V.nontrivial((t['fid'], p['point']))
+    V.sample({'family': t['fid'], 'kind': 'geometry', 'tables': tables}, limit=2)
+
+
 def family_locality(rng, fid):
     sph = rng.random() < 0.3
     ctx = wg.gen_ctx(rng, sph, exotic=False)
@@ -402,10 +540,14 @@ def main(tier, seed, replay):
         jobs.append(family_resolution(random.Random(rng.getrandbits(48)), 'r%d' % i))
     for i in range(n_loc):
         jobs.append(family_locality(random.Random(rng.getrandbits(48)), 'l%d' % i))
+    for i in range(n_eq):
+        jobs.append(family_geometry(random.Random(rng.getrandbits(48)), 'g%d' % i))
     core.run_cases('asan', [j[0] for j in jobs], PID)
     for (c, t) in jobs:
         if t['kind'] == 'equivalence':
             check_equivalence(V, c, t)
+        elif t['kind'] == 'geometry':
+            check_geometry(V, c, t)
         else:
             check_locality(V, c, t)
     return V.finish(floor_nontrivial=1500 if tier == 'quick' else 45000, floor_evaluations=5000)
